@@ -262,35 +262,33 @@ func sameDir(dir string, im []LImg, reqs []*lreq, names []string) string {
 func (w *world) loaderJob(report func(int, *mismatch)) {
 	for k := 0; k < w.j.Loader; k++ {
 		names, byMask := w.ranges()
-		key := len(names)
-		if k%2 == 0 && len(lbehs[-key]) > 0 {
-			key = -key
-		}
-		all := lbehs[key]
-		if len(all) == 0 {
-			lSkip.Add(1)
-			return
+		keys := []int{len(names)}
+		if k%2 == 0 {
+			keys = []int{-len(names), len(names)}
 		}
 		// the next behaviour all of whose lists some time range selects on this store
 		var b *LBeh
 		cursorMu.Lock()
-		for try := 0; try < len(all) && b == nil; try++ {
-			c := &all[lcursor[key]%len(all)]
-			lcursor[key]++
-			ok := true
-			for _, l := range c.Lists {
-				if _, have := byMask[mask(l)]; !have {
-					ok = false
+		for _, key := range keys {
+			all := lbehs[key]
+			for try := 0; try < len(all) && b == nil; try++ {
+				c := &all[lcursor[key]%len(all)]
+				lcursor[key]++
+				ok := true
+				for _, l := range c.Lists {
+					if _, have := byMask[mask(l)]; !have {
+						ok = false
+					}
 				}
-			}
-			if ok {
-				b = c
+				if ok {
+					b = c
+				}
 			}
 		}
 		cursorMu.Unlock()
 		if b == nil {
 			lSkip.Add(1)
-			continue
+			return
 		}
 		if m := w.loaderStage(b, k, names, byMask); m != nil {
 			if m.kind != "infra" {
